@@ -17,13 +17,21 @@ pub fn analyze_order(egraph: &EGraph, enode: &Expr) -> OrderKey {
     match enode {
         List(keys) => keys.clone(),
         // scanned table is ordered by primary key in secondary storage
+        // (rows are ordered by the key columns in table order, so only the table's first key
+        // column is an order key, wherever it appears in the scanned list)
         Scan([_, cols, _]) if egraph.analysis.config.table_is_sorted_by_primary_key => {
-            let primary_key = egraph[*cols].as_list().iter().find(|id| {
-                let catalog = &egraph.analysis.catalog;
-                match catalog.get_column(&egraph[**id].as_column()) {
-                    Some(col) => col.is_primary(),
-                    None => false,
-                }
+            let catalog = &egraph.analysis.catalog;
+            let list = egraph[*cols].as_list();
+            let first_key = (list.first())
+                .and_then(|id| catalog.get_table(&egraph[*id].as_column().table()))
+                .and_then(|table| {
+                    (table.all_columns().into_iter())
+                        .find(|(_, col)| col.is_primary())
+                        .map(|(id, _)| id)
+                });
+            let primary_key = first_key.and_then(|key| {
+                list.iter()
+                    .find(|id| egraph[**id].as_column().column_id == key)
             });
             match primary_key {
                 Some(id) => Box::new([*id]),
